@@ -1138,25 +1138,31 @@ theorem dump_find {m : Mgr} {roots : Roots} {f : PickleFile} (h : dumpPickle m r
 theorem length_vars_toList (t : Tbl) : t.vars.toList.length = t.nvars := by
   unfold Tbl.nvars; exact TreeMap.length_toList
 
-/-- the content `_dump_bdd` writes for a manager satisfying the invariant is well formed -/
-theorem dumpPickle_wf {m : Mgr} (hI : Inv m) (hv : VarsOK m.tbl) {roots : Roots} {f : PickleFile}
-    (h : dumpPickle m roots = .ok f) : PickleWF f := by
-  obtain ⟨nodes, hn, hin, hout⟩ := dump_find h
-  obtain ⟨hvars, _, _⟩ := dumpPickle_parts h
-  obtain ⟨hcl, _⟩ := dumpNodes_closed hI.wf.toWF hn
-  have hw := hI.wf.toWF
-  have hlen : f.vars.length = m.tbl.nvars := by rw [hvars]; exact length_vars_toList _
+/-- the file `f` stores the variable table of `t` and exactly the nodes `nodes` (a set
+closed under successors) with their stored triples -/
+structure Stores (t : Tbl) (nodes : List Nat) (f : PickleFile) : Prop where
+  vars : f.vars = t.vars.toList
+  closed : Closed t nodes
+  inn : ∀ k ∈ nodes, k ≠ 1 → ∃ n, t.succ[k]? = some n ∧
+    PEntry.find f.succ k = some ⟨k, n.lvl, some n.lo, some n.hi⟩
+  out : ∀ k, k ∉ nodes → k ≠ 1 → PEntry.find f.succ k = none
+
+/-- such a content is well formed -/
+theorem Stores.wf {t : Tbl} {nodes : List Nat} {f : PickleFile} (hst : Stores t nodes f)
+    (hw : WF t) (hv : VarsOK t) : PickleWF f := by
+  obtain ⟨hvars, hcl, hin, hout⟩ := hst
+  have hlen : f.vars.length = t.nvars := by rw [hvars]; exact length_vars_toList _
   have hfind : ∀ k e, PEntry.find f.succ k = some e → k ≠ 1 →
-      k ∈ nodes ∧ ∃ n, m.tbl.succ[k]? = some n ∧ e = ⟨k, n.lvl, some n.lo, some n.hi⟩ := by
+      k ∈ nodes ∧ ∃ n, t.succ[k]? = some n ∧ e = ⟨k, n.lvl, some n.lo, some n.hi⟩ := by
     intro k e he h1
     by_cases hk : k ∈ nodes
     · obtain ⟨n, hn', hf⟩ := hin k hk h1
       rw [hf] at he
       cases he
       exact ⟨hk, n, hn', rfl⟩
-    · rw [hout k hk] at he; cases he
-  have hchild : ∀ (c : Int) (l : Nat), m.tbl.Mem c → (c.natAbs = 1 ∨ c.natAbs ∈ nodes) →
-      l < m.tbl.levelOf c → FRef f.succ c ∧ l < flevel f.succ f.vars.length c := by
+    · rw [hout k hk h1] at he; cases he
+  have hchild : ∀ (c : Int) (l : Nat), t.Mem c → (c.natAbs = 1 ∨ c.natAbs ∈ nodes) →
+      l < t.levelOf c → FRef f.succ c ∧ l < flevel f.succ f.vars.length c := by
     intro c l hc hcn hl
     by_cases h1 : c.natAbs = 1
     · refine ⟨Or.inl h1, ?_⟩
@@ -1166,21 +1172,21 @@ theorem dumpPickle_wf {m : Mgr} (hI : Inv m) (hv : VarsOK m.tbl) {roots : Roots}
       · exact absurd hcn h1
       obtain ⟨n, hn', hf⟩ := hin _ hcn h1
       refine ⟨Or.inr (by simp [hf]), ?_⟩
-      have : m.tbl.levelOf c = n.lvl := levelOf_node m.tbl c n h1 hn'
+      have : t.levelOf c = n.lvl := levelOf_node t c n h1 hn'
       simp [flevel, h1, hf, ← this, hl]
   refine ⟨⟨?_⟩, (nameAt_of_vars hv hvars).1, ?_⟩
   · intro k e he h1
     obtain ⟨hk, n, hn', rfl⟩ := hfind k e he h1
     obtain ⟨n', hn'', clo, chi⟩ := hcl k hk h1
     rw [hn'] at hn''; cases hn''
-    have hnode : m.tbl.node? k = some n := hn'
+    have hnode : t.node? k = some n := hn'
     obtain ⟨r1, l1⟩ := hchild n.lo n.lvl (hw.lo_mem _ _ hnode) clo (hw.lo_lt _ _ hnode)
     obtain ⟨r2, l2⟩ := hchild n.hi n.lvl (hw.hi_mem _ _ hnode) chi (hw.hi_lt _ _ hnode)
     exact ⟨n.lo, n.hi, rfl, rfl, by rw [hlen]; exact hw.lvl_lt _ _ hnode, hw.hi_pos _ _ hnode,
       hw.ge_two _ _ hnode, r1, r2, l1, l2⟩
   · intro k e he h1
     obtain ⟨_, n, hn', rfl⟩ := hfind k e he h1
-    have hnode : m.tbl.node? k = some n := hn'
+    have hnode : t.node? k = some n := hn'
     obtain ⟨x, hx⟩ := Option.isSome_iff_exists.mp (hv.named _ (hw.lvl_lt _ _ hnode))
     refine ⟨x, ?_⟩
     show (x, n.lvl) ∈ f.vars
@@ -1188,16 +1194,13 @@ theorem dumpPickle_wf {m : Mgr} (hI : Inv m) (hv : VarsOK m.tbl) {roots : Roots}
     exact (hv.bij x n.lvl).mpr hx
 
 /-- the dumped content denotes, by variable name, what the manager's references denote -/
-theorem dumpPickle_eval {m : Mgr} (hI : Inv m) (hv : VarsOK m.tbl) {roots : Roots} {f : PickleFile}
-    (h : dumpPickle m roots = .ok f) (α : String → Bool) :
-    ∀ u ∈ roots.values, evalPickle f u α = denBy m.tbl u α := by
-  obtain ⟨nodes, hn, hin, hout⟩ := dump_find h
-  obtain ⟨hvars, _, _⟩ := dumpPickle_parts h
-  obtain ⟨hcl, hroots⟩ := dumpNodes_closed hI.wf.toWF hn
-  have hw := hI.wf.toWF
-  have hlen : f.vars.length = m.tbl.nvars := by rw [hvars]; exact length_vars_toList _
+theorem Stores.eval {t : Tbl} {nodes : List Nat} {f : PickleFile} (hst : Stores t nodes f)
+    (hw : WF t) (hv : VarsOK t) (α : String → Bool) :
+    ∀ u : Int, (u.natAbs = 1 ∨ u.natAbs ∈ nodes) → evalPickle f u α = denBy t u α := by
+  obtain ⟨hvars, hcl, hin, hout⟩ := hst
+  have hlen : f.vars.length = t.nvars := by rw [hvars]; exact length_vars_toList _
   have key : ∀ k u, (u.natAbs = 1 ∨ u.natAbs ∈ nodes) →
-      evalN f k u α = denF m.tbl k u (m.tbl.asg α) := by
+      evalN f k u α = denF t k u (t.asg α) := by
     intro k
     induction k with
     | zero => intro u _; rfl
@@ -1212,17 +1215,39 @@ theorem dumpPickle_eval {m : Mgr} (hI : Inv m) (hv : VarsOK m.tbl) {roots : Root
         obtain ⟨n, hn', hf⟩ := hin _ hu h1
         obtain ⟨n', hn'', clo, chi⟩ := hcl _ hu h1
         rw [hn'] at hn''; cases hn''
-        have hnode : m.tbl.node? u.natAbs = some n := hn'
+        have hnode : t.node? u.natAbs = some n := hn'
         obtain ⟨x, hx⟩ := Option.isSome_iff_exists.mp (hv.named _ (hw.lvl_lt _ _ hnode))
         have hname := (nameAt_of_vars hv hvars).2 _ _ hx
         simp only [hf, hnode, hname]
         rw [ih _ chi, ih _ clo]
-        have : m.tbl.asg α n.lvl = α x := by simp [Tbl.asg, hx]
+        have : t.asg α n.lvl = α x := by simp [Tbl.asg, hx]
         rw [this]
   intro u hu
   unfold evalPickle denBy den
   rw [hlen]
-  exact key _ u (hroots u hu)
+  exact key _ u hu
+
+theorem dumpPickle_stores {m : Mgr} (hI : Inv m) {roots : Roots} {f : PickleFile}
+    (h : dumpPickle m roots = .ok f) :
+    ∃ nodes, Stores m.tbl nodes f ∧ (∀ u ∈ roots.values, u.natAbs = 1 ∨ u.natAbs ∈ nodes) := by
+  obtain ⟨nodes, hn, hin, hout⟩ := dump_find h
+  obtain ⟨hvars, _, _⟩ := dumpPickle_parts h
+  obtain ⟨hcl, hroots⟩ := dumpNodes_closed hI.wf.toWF hn
+  exact ⟨nodes, ⟨hvars, hcl, hin, fun k hk _ => hout k hk⟩, hroots⟩
+
+/-- the content `_dump_bdd` writes for a manager satisfying the invariant is well formed -/
+theorem dumpPickle_wf {m : Mgr} (hI : Inv m) (hv : VarsOK m.tbl) {roots : Roots} {f : PickleFile}
+    (h : dumpPickle m roots = .ok f) : PickleWF f := by
+  obtain ⟨nodes, hst, _⟩ := dumpPickle_stores hI h
+  exact hst.wf hI.wf.toWF hv
+
+/-- the dumped content denotes, by variable name, what the manager's references denote -/
+theorem dumpPickle_eval {m : Mgr} (hI : Inv m) (hv : VarsOK m.tbl) {roots : Roots} {f : PickleFile}
+    (h : dumpPickle m roots = .ok f) (α : String → Bool) :
+    ∀ u ∈ roots.values, evalPickle f u α = denBy m.tbl u α := by
+  obtain ⟨nodes, hst, hr⟩ := dumpPickle_stores hI h
+  intro u hu
+  exact hst.eval hI.wf.toWF hv α u (hr u hu)
 
 theorem dumpPickle_rootsOK {m : Mgr} (hI : Inv m) {roots : Roots} {f : PickleFile}
     (h : dumpPickle m roots = .ok f) (hsome : roots ≠ .none)
@@ -1890,6 +1915,198 @@ theorem pickle_load_statement_false_F3 : ¬ pickle_load_statement := by
   have := I.wf.hi_lt 3 _ n3
   rw [levelOf_node m'.tbl 2 _ (by decide) n2] at this
   exact absurd this (by decide)
+
+
+/-! ### JSON: the content `dump_json` writes -/
+
+def JLine.entry (ln : JLine) : PEntry := ⟨ln.id, ln.lvl, some ln.lo, some ln.hi⟩
+
+/-- the JSON content seen as a `vars / succ / roots` content (the terminal is implicit in
+JSON: `"T"` / `"F"`) -/
+def JsonFile.toPickle (f : JsonFile) : PickleFile :=
+  { vars := f.levelOfVar
+    succ := ⟨1, f.levelOfVar.length, none, none⟩ :: f.nodes.map JLine.entry
+    roots := f.roots }
+
+/-- semantics of a node id inside a JSON file, by variable name -/
+def evalJson (f : JsonFile) (u : Int) (α : String → Bool) : Bool := evalPickle f.toPickle u α
+
+/-- invariant of the recursion of `_dump_bdd`: `cache` = ids of the lines written so far,
+each line is the stored triple of its node, the set is closed under successors -/
+structure JOut (t : Tbl) (cache : List Nat) (out : List JLine) : Prop where
+  ids : ∀ k, k ∈ cache ↔ ∃ ln ∈ out, ln.id = k
+  line : ∀ ln ∈ out, ln.id ≠ 1 ∧ t.succ[ln.id]? = some ⟨ln.lvl, ln.lo, ln.hi⟩
+  closed : Closed t cache
+
+theorem dumpJsonF_spec (t : Tbl) :
+    ∀ f u cache out cache' out', dumpJsonF t f u cache out = .ok (cache', out') → JOut t cache out →
+      JOut t cache' out' ∧ (∀ x ∈ cache, x ∈ cache') ∧ (u.natAbs = 1 ∨ u.natAbs ∈ cache') := by
+  intro f
+  induction f with
+  | zero => intro u cache out cache' out' h; simp [dumpJsonF] at h
+  | succ f ih =>
+    intro u cache out cache' out' h hj
+    rw [dumpJsonF] at h
+    by_cases h1 : u.natAbs = 1
+    · rw [if_pos h1] at h
+      cases h
+      exact ⟨hj, fun _ h => h, Or.inl h1⟩
+    · rw [if_neg h1] at h
+      dsimp only at h
+      by_cases hc : cache.contains u.natAbs = true
+      · rw [if_pos hc] at h
+        cases h
+        exact ⟨hj, fun _ h => h, Or.inr (by simpa using hc)⟩
+      · rw [if_neg hc] at h
+        cases hn : t.succ[u.natAbs]? with
+        | none => simp [hn] at h
+        | some n =>
+          simp only [hn] at h
+          cases e1 : dumpJsonF t f n.lo cache out with
+          | error e => simp [e1] at h
+          | ok r1 =>
+            obtain ⟨c1, o1⟩ := r1
+            simp only [e1] at h
+            cases e2 : dumpJsonF t f n.hi c1 o1 with
+            | error e => simp [e2] at h
+            | ok r2 =>
+              obtain ⟨c2, o2⟩ := r2
+              simp only [e2] at h
+              cases h
+              obtain ⟨j1, s1, m1⟩ := ih _ _ _ _ _ e1 hj
+              obtain ⟨j2, s2, m2⟩ := ih _ _ _ _ _ e2 j1
+              have m1' : n.lo.natAbs = 1 ∨ n.lo.natAbs ∈ c2 := m1.imp id (s2 _)
+              refine ⟨⟨?_, ?_, ?_⟩, fun x hx => List.mem_cons_of_mem _ (s2 x (s1 x hx)),
+                Or.inr List.mem_cons_self⟩
+              · intro k
+                rw [List.mem_cons, j2.ids k]
+                constructor
+                · rintro (hk | ⟨ln, hl, hid⟩)
+                  · exact ⟨_, List.mem_append_right _ (List.mem_singleton.mpr rfl), hk.symm⟩
+                  · exact ⟨ln, List.mem_append_left _ hl, hid⟩
+                · rintro ⟨ln, hl, hid⟩
+                  rcases List.mem_append.mp hl with hl | hl
+                  · exact Or.inr ⟨ln, hl, hid⟩
+                  · rw [List.mem_singleton] at hl; subst hl; exact Or.inl hid.symm
+              · intro ln hl
+                rcases List.mem_append.mp hl with hl | hl
+                · exact j2.line ln hl
+                · rw [List.mem_singleton] at hl; subst hl; exact ⟨h1, hn⟩
+              · apply j2.closed.mono (fun x hx => List.mem_cons_of_mem _ hx)
+                intro r hr hnot _
+                rcases List.mem_cons.mp hr with h' | h'
+                · subst h'
+                  exact ⟨n, hn, m1'.imp id (List.mem_cons_of_mem _), m2.imp id (List.mem_cons_of_mem _)⟩
+                · exact absurd h' hnot
+
+theorem dumpJsonRoots_spec (t : Tbl) :
+    ∀ roots cache out cache' out', dumpJsonRoots t roots cache out = .ok (cache', out') →
+      JOut t cache out →
+      JOut t cache' out' ∧ (∀ x ∈ cache, x ∈ cache') ∧ (∀ u ∈ roots, u.natAbs = 1 ∨ u.natAbs ∈ cache') := by
+  intro roots
+  induction roots with
+  | nil =>
+    intro cache out cache' out' h hj
+    simp [dumpJsonRoots] at h
+    obtain ⟨rfl, rfl⟩ := h
+    exact ⟨hj, fun _ h => h, by simp⟩
+  | cons u rest ih =>
+    intro cache out cache' out' h hj
+    rw [dumpJsonRoots] at h
+    cases e1 : dumpJsonF t (t.nvars + 2) u cache out with
+    | error e => simp [e1] at h
+    | ok r1 =>
+      obtain ⟨c1, o1⟩ := r1
+      simp only [e1] at h
+      obtain ⟨j1, s1, m1⟩ := dumpJsonF_spec t _ _ _ _ _ _ e1 hj
+      obtain ⟨j2, s2, m2⟩ := ih _ _ _ _ h j1
+      refine ⟨j2, fun x hx => s2 x (s1 x hx), ?_⟩
+      intro x hx
+      rcases List.mem_cons.mp hx with h' | h'
+      · subst h'; exact m1.imp id (s2 _)
+      · exact m2 x h'
+
+theorem dumpJson_parts {m : Mgr} {roots : Roots} {f : JsonFile} (h : dumpJson m roots = .ok f) :
+    f.levelOfVar = m.tbl.vars.toList ∧ f.roots = roots ∧ roots ≠ .none ∧
+    ∃ cache, dumpJsonRoots m.tbl roots.values [] [] = .ok (cache, f.nodes) := by
+  unfold dumpJson at h
+  cases roots with
+  | none => simp at h
+  | list l =>
+    dsimp only at h
+    split at h
+    · cases h
+    · split at h
+      · cases h
+      · cases e : dumpJsonRoots m.tbl (Roots.list l).values [] [] with
+        | error er => simp [e] at h
+        | ok r =>
+          obtain ⟨c, o⟩ := r
+          simp only [e] at h
+          cases h
+          exact ⟨rfl, rfl, by simp, c, rfl⟩
+  | dict d =>
+    dsimp only at h
+    split at h
+    · cases h
+    · split at h
+      · cases h
+      · cases e : dumpJsonRoots m.tbl (Roots.dict d).values [] [] with
+        | error er => simp [e] at h
+        | ok r =>
+          obtain ⟨c, o⟩ := r
+          simp only [e] at h
+          cases h
+          exact ⟨rfl, rfl, by simp, c, rfl⟩
+
+theorem find_lines (out : List JLine) (k : Nat) (h1 : k ≠ 1) (n : Nat) :
+    PEntry.find (⟨1, n, none, none⟩ :: out.map JLine.entry) k =
+      (out.find? (fun ln => ln.id == k)).map JLine.entry := by
+  unfold PEntry.find
+  rw [List.find?_cons]
+  have : ((⟨1, n, none, none⟩ : PEntry).id == k) = false := by
+    simp; exact fun h => h1 h.symm
+  rw [this, List.find?_map]
+  rfl
+
+/-- the JSON content stores the variable table and a successor-closed set of nodes
+containing the roots -/
+theorem dumpJson_stores {m : Mgr} {roots : Roots} {f : JsonFile} (h : dumpJson m roots = .ok f) :
+    ∃ nodes, Stores m.tbl nodes f.toPickle ∧ (∀ u ∈ roots.values, u.natAbs = 1 ∨ u.natAbs ∈ nodes) := by
+  obtain ⟨hv, _, _, cache, hc⟩ := dumpJson_parts h
+  obtain ⟨j, _, hr⟩ := dumpJsonRoots_spec m.tbl _ _ _ _ _ hc
+    ⟨by simp, by simp, by intro r hr; simp at hr⟩
+  refine ⟨cache, ⟨hv, j.closed, ?_, ?_⟩, hr⟩
+  · intro k hk h1
+    obtain ⟨ln, hl, hid⟩ := (j.ids k).mp hk
+    have hex : (f.nodes.find? (fun ln => ln.id == k)).isSome := by
+      rw [List.find?_isSome]; exact ⟨ln, hl, by simp [hid]⟩
+    obtain ⟨ln', hln'⟩ := Option.isSome_iff_exists.mp hex
+    have hid' : ln'.id = k := by simpa using List.find?_some hln'
+    obtain ⟨_, hs⟩ := j.line ln' (List.mem_of_find?_eq_some hln')
+    rw [hid'] at hs
+    refine ⟨_, hs, ?_⟩
+    show PEntry.find (_ :: f.nodes.map JLine.entry) k = _
+    rw [find_lines _ _ h1, hln']
+    simp [JLine.entry, hid']
+  · intro k hk h1
+    show PEntry.find (_ :: f.nodes.map JLine.entry) k = _
+    rw [find_lines _ _ h1]
+    have : f.nodes.find? (fun ln => ln.id == k) = none := by
+      rw [List.find?_eq_none]
+      intro ln hl hid
+      exact hk ((j.ids k).mpr ⟨ln, hl, by simpa using hid⟩)
+    rw [this]; rfl
+
+/-- the JSON content `dump_json` writes is well formed and denotes, by variable name, what
+the manager's references denote; the roots container is stored as given -/
+theorem dumpJson_spec {m : Mgr} (hI : Inv m) (hv : VarsOK m.tbl) {roots : Roots} {f : JsonFile}
+    (h : dumpJson m roots = .ok f) :
+    PickleWF f.toPickle ∧ f.roots = roots ∧
+    ∀ α, ∀ u ∈ roots.values, evalJson f u α = denBy m.tbl u α := by
+  obtain ⟨nodes, hst, hr⟩ := dumpJson_stores h
+  exact ⟨hst.wf hI.wf.toWF hv, (dumpJson_parts h).2.1,
+    fun α u hu => hst.eval hI.wf.toWF hv α u (hr u hu)⟩
 
 
 end DD
